@@ -15,7 +15,30 @@ const P: &str = "C11";
 const MAX_BITS: u64 = 6000;
 
 fn gen_x(rng: &mut Prng, n: u32, thorough: bool) -> (Vec<u32>, &'static str) {
-    let regime = rng.below(12);
+    let regime = rng.below(13);
+    if regime == 12 {
+        // bit lengths where a float-derived root stops being exact: around n * 53 (f64 mantissa) and n * 24
+        let nn = n.clamp(1, 60) as u64;
+        let bits = (nn * *rng.pick(&[53u64, 53, 53, 24, 64])).saturating_add(rng.below(5)).saturating_sub(2).clamp(2, MAX_BITS - 1);
+        let mut x = RefNat::from_u32s(&rng.digits32(((bits + 31) / 32) as usize, true));
+        let extra = x.bits().saturating_sub(bits);
+        x = x.shr(extra);
+        if x.bits() < bits {
+            x = x.add(&RefNat::one().shl(bits - 1));
+        }
+        if rng.chance(1, 2) {
+            // a perfect power of that size and its neighbours
+            let rbits = (bits / nn).max(1);
+            let r = RefNat::one().shl(rbits - 1).add(&RefNat::from_u128(rng.next_u64() as u128 & ((1u128 << (rbits - 1).min(63)) - 1)));
+            let pw = r.pow(n.clamp(1, 60));
+            x = match rng.below(3) {
+                0 => pw,
+                1 => pw.sub(&RefNat::one()).unwrap_or(RefNat::one()),
+                _ => pw.add_small(1),
+            };
+        }
+        return (x.0, "mantissa_boundary");
+    }
     if regime >= 10 {
         // exact regime boundaries: 2^k, 2^k - 1, 2^k + 1 around the u64 fast path, the f64 range and n * j
         let k = match rng.below(4) {
